@@ -327,3 +327,6 @@ def _py_native_gen(g):
 
 
 PyNode.native_gen = _py_native_gen
+
+# error-recovery flags of tree-sitter nodes (a tree with ERROR / MISSING nodes is still the parse tree)
+TSNode.attrs.update(has_error=Bool, is_error=Bool, is_missing=Bool)
